@@ -536,21 +536,11 @@ func c10Blocked(r *fw.R, d c10Desc) {
 	deadline := time.Now().Add(2 * time.Second)
 	closed := false
 	for time.Now().Before(deadline) {
-		octx, oc := context.WithTimeout(base, 50*time.Millisecond)
-		err := c.Ping(octx)
-		oc()
-		if err != nil && peerEnd.Unread() >= 0 {
-			// is the transport closed?
-			if _, werr := peerEnd.Write(nil); werr != nil {
-				closed = true
-				break
-			}
-			if libClosed(peerEnd) {
-				closed = true
-				break
-			}
+		if peerEnd.PeerClosed() {
+			closed = true
+			break
 		}
-		time.Sleep(5 * time.Millisecond)
+		time.Sleep(2 * time.Millisecond)
 	}
 	if !closed {
 		r.Violate("C10/connection-not-closed-after-context-expiry/"+d.Blocked, what+": 2 s after the blocked call's context ended the library had not closed its transport", "")
